@@ -156,8 +156,8 @@ def run_check(prop: str, tier: str, seed: int, workers: int, segments: int | Non
 
     wall_s = time.monotonic() - t0
     done = sum(s["done"] for s in summaries)
-    # 4. evidence
-    if write_evidence:
+    # 4. evidence (never from a survey run: its probes are triage output, not coverage)
+    if write_evidence and not core.SURVEY:
         samples = []
         for s in summaries:
             samples.extend(s.get("samples", []))
